@@ -760,6 +760,13 @@ func (fi *FnIntervals) lenItv(v ssa.Value, b *ssa.BasicBlock) Itv {
 			return nonneg
 		}
 		r := Itv{new(big.Int).Sub(hi.Lo, lo.Hi), new(big.Int).Sub(hi.Hi, lo.Lo)}
+		// a slice expression cannot extend beyond the capacity of its operand
+		if ch := fi.capHi(x.X, b, 0); ch != nil {
+			r = r.meet(Itv{big.NewInt(0), new(big.Int).Sub(ch, lo.Lo)})
+			if r.empty() {
+				return nonneg
+			}
+		}
 		return r.meet(nonneg)
 	case *ssa.Phi:
 		var out Itv
@@ -1263,3 +1270,54 @@ func (ia *IntervalAnalysis) retLenItv(fn *ssa.Function, i int) Itv {
 }
 
 type ssaValue = ssa.Value
+
+// capHi returns an upper bound of cap(v), or nil when none is known.
+func (fi *FnIntervals) capHi(v ssa.Value, b *ssa.BasicBlock, depth int) *big.Int {
+	if depth > 6 {
+		return nil
+	}
+	switch t := v.Type().Underlying().(type) {
+	case *types.Array:
+		return big.NewInt(t.Len())
+	case *types.Pointer:
+		if at, ok := t.Elem().Underlying().(*types.Array); ok {
+			return big.NewInt(at.Len())
+		}
+	}
+	switch x := v.(type) {
+	case *ssa.MakeSlice:
+		c := fi.At(x.Cap, b)
+		if c.empty() {
+			return nil
+		}
+		return c.Hi
+	case *ssa.Slice:
+		if x.Max != nil {
+			m := fi.At(x.Max, b)
+			if !m.empty() {
+				return m.Hi
+			}
+		}
+		return fi.capHi(x.X, b, depth+1)
+	case *ssa.Phi:
+		var out *big.Int
+		for _, e := range x.Edges {
+			if e == v {
+				continue
+			}
+			c := fi.capHi(e, b, depth+1)
+			if c == nil {
+				return nil
+			}
+			if out == nil || c.Cmp(out) > 0 {
+				out = c
+			}
+		}
+		return out
+	case *ssa.Convert:
+		return fi.capHi(x.X, b, depth+1)
+	case *ssa.ChangeType:
+		return fi.capHi(x.X, b, depth+1)
+	}
+	return nil
+}
